@@ -437,6 +437,21 @@ func runInstance(r *core.Run, in *instance) {
 			}
 			alts = append(alts, alt{fmt.Sprintf("id%+d", d), &vss.Share{Threshold: t, ID: id2, Share: new(big.Int).Set(shares[i].Share)}})
 		}
+		// structured alterations: the negated share / id (the share point gets mirrored: same x on secp256k1, same
+		// y on edwards25519), the doubled ones
+		{
+			sm := new(big.Int).Mod(shares[i].Share, q)
+			if neg := new(big.Int).Sub(q, sm); neg.Sign() != 0 && neg.Cmp(sm) != 0 && neg.Cmp(q) != 0 {
+				alts = append(alts, alt{"share-negated", &vss.Share{Threshold: t, ID: new(big.Int).Set(shares[i].ID), Share: neg}})
+			}
+			if dbl := new(big.Int).Mod(new(big.Int).Lsh(sm, 1), q); dbl.Sign() != 0 && dbl.Cmp(sm) != 0 {
+				alts = append(alts, alt{"share-doubled", &vss.Share{Threshold: t, ID: new(big.Int).Set(shares[i].ID), Share: dbl}})
+			}
+			im := new(big.Int).Mod(shares[i].ID, q)
+			if neg := new(big.Int).Sub(q, im); neg.Sign() != 0 && neg.Cmp(im) != 0 && neg.Cmp(q) != 0 {
+				alts = append(alts, alt{"id-negated", &vss.Share{Threshold: t, ID: neg, Share: new(big.Int).Set(shares[i].Share)}})
+			}
+		}
 		for _, a := range alts {
 			var okA bool
 			ev(r, fmt.Sprintf("alter/%s/i%d/%s", tag, i, a.name))
